@@ -17,7 +17,7 @@ CHECKS = {
             "DESIGN.md §4 C17"),
     "C18": ("model_checking", E3,
             "preemption-bounded exhaustive schedule exploration (cooperative scheduler over the real DbImpl/bbolt, state-key pruning) with serial-state oracle; helper pairs under every schedule and pool answer; separate free-running -race pass over all unordered pairs of bodies",
-            "ALL schedules with <= 2 (thorough: 3) preemptions of one writer committing two multi-operation transactions (entity, unique index, set index, link buckets) and 1 (thorough: 2) reader(s) that read a marker, two index-backed queries (with in-scan yields through an ExternalSymbol), the unique index, the set index and links inside one View: every reader tuple equals the serial tuple of exactly one committed state and the final image is the serial result. Every unordered pair of package-level helpers (Parse valid/invalid/type-error with every pooled-instance answer, GetSymbol incl. two different elements of one map symbol, IsPublicSymbol/ValidateSymbolsArePublic with a never-seen map element per call, GetPublicSymbols, three error classifiers) returns its sequential result under every explored schedule. Data races: every unordered pair of helper, reader and writer bodies runs free under the race detector (20 repetitions x 3 goroutines x 5 calls) and every body whose answer no writer changes must also return its sequential result there.",
+            "ALL schedules with <= 2 (thorough: 3) preemptions of one writer committing two multi-operation transactions (entity, unique index, set index, link buckets) and 1 (thorough: 2) reader(s) that read a marker, two index-backed queries (with in-scan yields through an ExternalSymbol), the unique index, the set index and links inside one View: every reader tuple equals the serial tuple of exactly one committed state and the final image is the serial result. Every unordered pair of package-level helpers (Parse valid/invalid/type-error with every pooled-instance answer, GetSymbol incl. two different elements of one map symbol, IsPublicSymbol/ValidateSymbolsArePublic with a never-seen map element per call, GetPublicSymbols, three error classifiers) returns its sequential result under every explored schedule. Two readers with different queries over elements of two map symbols registered below one shared path slice (parse, yield, scan) get their serial answers under every schedule. Data races: every unordered pair of helper, reader and writer bodies runs free under the race detector (20 repetitions x 3 goroutines x 5 calls) and every body whose answer no writer changes must also return its sequential result there.",
             "The cooperative scheduler cannot see unsynchronised accesses; that clause rests on the race detector over the enumerated body pairs (a detector, not an enumeration of memory orderings). Scheduling points as in C17.",
             "DESIGN.md §4 C18"),
     "C07": ("fault_enumeration", E1,
@@ -62,7 +62,7 @@ CHECKS = {
             "DESIGN.md §4 C12"),
     "C20": ("exploration", E2,
             "enumeration of typed queries covering every typed AST node kind (measured by a visitor) x ALL public/non-public assignments of the symbols each query mentions",
-            "Every query of the C01/C02 generators plus sub-queries carrying their own sort clauses (each typed node kind produced at least once - the run fails as vacuous otherwise) is validated under every public/non-public assignment of its symbols on freshly wired stores; accept iff all mentioned symbols are public (map elements follow the map), and a rejection must name a non-public symbol of the query.",
+            "Every query of the C01/C02 generators plus sub-queries carrying their own sort clauses (each typed node kind produced at least once - the run fails as vacuous otherwise) is validated under every public/non-public assignment of its symbols on freshly wired stores; accept iff all mentioned symbols are public (map elements one to three levels below the map follow the map, in predicates, null tests, in/contains, sort fields and sub-queries), and a rejection must name a non-public symbol of the query.",
             "Sub-queries only over the self-referential set (so 'public for the store' is unambiguous); id and fk symbols are always public (no API to register them otherwise).",
             "DESIGN.md §4 C20"),
     "C02": ("exploration", E2,
@@ -107,7 +107,7 @@ CHECKS = {
             "DESIGN.md §4 C15"),
     "C16": ("model_checking", E1,
             "explicit-state BFS to closure over {create,update,patch,delete} x {system,ordinary context} x flag, 1-2 operations per transaction",
-            "All reachable states and all one- and two-operation transactions mixing system and ordinary contexts are enumerated; allowed/refused, unchanged-after-refusal, immutability of the flag and read-back are compared with the model.",
+            "All reachable states and all one- and two-operation transactions mixing system and ordinary contexts are enumerated (updates as full update, field-restricted patch, and with the entity's Migrate mark set); allowed/refused, unchanged-after-refusal, immutability of the flag and read-back are compared with the model.",
             "2 ids, 2 names (a unique index supplies a second rejection cause).",
             "DESIGN.md §4 C16"),
 }
@@ -155,7 +155,7 @@ def main():
         ],
         "checks": checks,
         "not_applicable": na,
-        "notes": "Every check rebuilds the harness against /repo's working tree (run.sh). Known findings and repaired defects: known_findings.json (the known list is empty; 27 fix: commits). Seeded changes: seeded/ (116, all detected at the quick tier); behaviour-preserving refactorings: refactors/ (8, no alarm); self-test: tools/selftest.py -> selftest/results.json.",
+        "notes": "Every check rebuilds the harness against /repo's working tree (run.sh). Known findings and repaired defects: known_findings.json (the known list is empty; 27 fix: commits). Seeded changes: seeded/ (126, all detected at the quick tier); behaviour-preserving refactorings: refactors/ (8, no alarm); self-test: tools/selftest.py -> selftest/results.json.",
     }
     with open(os.path.join(ROOT, "MANIFEST.json"), "w") as f:
         json.dump(m, f, indent=1)
